@@ -69,7 +69,26 @@ func shardCases(all []run.CaseID, shard, n int) (ids []run.CaseID, seqs []uint64
 	return
 }
 
+// memoryGuard ends the worker when the Go heap exceeds a fixed budget: a library
+// loop that allocates without bound is a termination failure of the case in
+// flight (the parent attributes it through the progress file), and it must not
+// be allowed to exhaust the machine.
+func memoryGuard(limit uint64) {
+	go func() {
+		var ms runtime.MemStats
+		for {
+			time.Sleep(150 * time.Millisecond)
+			runtime.ReadMemStats(&ms)
+			if ms.HeapAlloc > limit {
+				fmt.Fprintf(os.Stderr, "MEMORY BUDGET EXCEEDED: heap %d MiB > %d MiB while running the case in the progress file (library allocates without bound)\n", ms.HeapAlloc>>20, limit>>20)
+				os.Exit(97)
+			}
+		}
+	}()
+}
+
 func worker(p *run.Prop) int {
+	memoryGuard(3 << 30)
 	prog, err := os.OpenFile(filepath.Join(*fOut, fmt.Sprintf("shard-%d.progress", *fShard)), os.O_CREATE|os.O_WRONLY, 0o644)
 	if err != nil {
 		fmt.Fprintln(os.Stderr, err)
@@ -171,8 +190,12 @@ func runShard(p *run.Prop, self, dir string, shard, n int, timeout time.Duration
 			return out
 		}
 		st := tail(errPath, 60)
+		site := run.PanicSite(st)
+		if strings.Contains(st, "MEMORY BUDGET EXCEEDED") {
+			site = "memory-budget"
+		}
 		out.crashes = append(out.crashes, run.Failure{Prop: p.ID, CaseID: cid, Digest: "", Sub: "fatal",
-			Class: run.PanicSite(st), Detail: fmt.Sprintf("worker process died (%v) while running this case:\n%s", werr, st)})
+			Class: site, Detail: fmt.Sprintf("worker process died (%v) while running this case:\n%s", werr, st)})
 		resume = seq + 1
 	}
 	out.inconclusive = append(out.inconclusive, fmt.Sprintf("shard %d: too many worker crashes", shard))
